@@ -307,6 +307,7 @@ func runGCSProbe(p gcsProbe) {
 // gcsChildMain is what the re-executed harness binary runs.
 func gcsChildMain() {
 	runtime.LockOSThread()
+	inChild = true
 	seed, _ := strconv.ParseUint(os.Getenv("C08_SEED"), 10, 64)
 	skip, _ := strconv.Atoi(os.Getenv("C08_SKIP"))
 	thorough := os.Getenv("C08_TIER") == "thorough"
@@ -456,7 +457,8 @@ func runGCS() {
 		kind, what := "panic", "the child process died (fatal error / crash) while running this probe"
 		if timedOut || hang != nil {
 			kind, what = "time", "the probe did not finish within the child's time limit"
-		} else if strings.Contains(full, "out of memory") || strings.Contains(full, "cannot allocate") || strings.Contains(full, "too large") {
+		} else if strings.Contains(full, "out of memory") || strings.Contains(full, "cannot allocate") || strings.Contains(full, "too large") ||
+			strings.Contains(full, "pthread_create failed") || strings.Contains(full, "failed to create new OS thread") || strings.Contains(full, "errno=12") {
 			kind, what = "alloc", fmt.Sprintf("the probe tried to allocate beyond the child's %d KiB address-space cap (allocation driven by a count claimed inside the input, not by its length)", gcsMemCapKiB)
 		}
 		entry := "gcs"
